@@ -546,3 +546,25 @@ def self_calls(node: ast.AST) -> list[str]:
     """Names of methods called as `self.<name>(...)` / `cls.<name>(...)` inside `node`."""
     return [c.func.attr for c in ast.walk(node) if isinstance(c, ast.Call) and isinstance(c.func, ast.Attribute)
             and isinstance(c.func.value, ast.Name) and c.func.value.id in ("self", "cls")]
+
+
+# ------------------------------------------------------------------ analysis views (cached per Program)
+_VIEWS: "Any" = None
+
+
+def analysis_view(prog: Program, fn: FuncInfo) -> FuncInfo:
+    """The analysis view of `fn`: statement helpers spliced in (splice_tail_helpers), then the engine
+    normaliser (expression helpers, single-assignment locals; if/else kept as control flow).  Views are
+    read-only for the rules and cached per Program object."""
+    import weakref
+
+    from ..engine.normalize import normalize
+
+    global _VIEWS
+    if _VIEWS is None:
+        _VIEWS = weakref.WeakKeyDictionary()
+    per = _VIEWS.setdefault(prog, {})
+    key = (fn.qual, id(fn.node))
+    if key not in per:
+        per[key] = normalize(prog, splice_tail_helpers(prog, fn)[0], diamonds=False)
+    return per[key]
